@@ -15,6 +15,8 @@ import (
 	"go/token"
 	"os"
 	"path/filepath"
+	"reflect"
+	"runtime"
 	"sort"
 	"strconv"
 	"strings"
@@ -22,9 +24,13 @@ import (
 
 var fset = token.NewFileSet()
 
+// a generator that does not recognise the source gives up with die(); the generators are independent of each other:
+// the one that failed leaves a file that does not compile (and no stale .vo), the others still run, so that only the
+// properties whose theorems depend on the failed table lose their obligations
+type genFailure struct{ msg string }
+
 func die(format string, a ...interface{}) {
-	fmt.Fprintf(os.Stderr, "gen: "+format+"\n", a...)
-	os.Exit(3)
+	panic(genFailure{fmt.Sprintf(format, a...)})
 }
 
 func parse(root, rel string) *ast.File {
@@ -393,10 +399,11 @@ func genFlags(root, outdir string) {
 }
 
 // unmarshalShape recognises
-//   if len(b) < MIN { return err }
-//   v := make([]byte, len(b)+K)   (pad = (0,K): len+K)   or   make([]byte, max(K, len(b)))  (pad = (1,K): max K len)
-//   copy(v, b)
-//   x.Flags = binary.LittleEndian.UintW(v)
+//
+//	if len(b) < MIN { return err }
+//	v := make([]byte, len(b)+K)   (pad = (0,K): len+K)   or   make([]byte, max(K, len(b)))  (pad = (1,K): max K len)
+//	copy(v, b)
+//	x.Flags = binary.LittleEndian.UintW(v)
 func unmarshalShape(fd *ast.FuncDecl, file string) (int, string, int) {
 	min, width := -1, -1
 	pad := ""
@@ -884,15 +891,60 @@ func main() {
 	if err := os.MkdirAll(outdir, 0o755); err != nil {
 		die("%v", err)
 	}
-	genFlags(root, outdir)
-	genGtpu(root, outdir)
-	genConsts(root, outdir)
-	genHandlers(root, outdir)
-	genConfig(root, outdir)
+	type gen struct {
+		name  string
+		files []string
+		run   func(root, outdir string)
+	}
+	gens := []gen{
+		{"genFlags", []string{"FlagsGen.v"}, genFlags}, {"genGtpu", []string{"GtpuGen.v"}, genGtpu},
+		{"genConsts", []string{"ConstsGen.v"}, genConsts}, {"genHandlers", []string{"HandlerGen.v"}, genHandlers},
+		{"genConfig", []string{"ConfigGen.v"}, genConfig},
+	}
 	// further generators live in their own files (gen_*.go) and register themselves in init()
 	for _, g := range extraGenerators {
-		g(root, outdir)
+		full := runtime.FuncForPC(reflect.ValueOf(g).Pointer()).Name()
+		name := full[strings.LastIndex(full, ".")+1:]
+		files, ok := genOutputs[name]
+		if !ok {
+			fmt.Fprintf(os.Stderr, "gen: generator %s has no entry in genOutputs\n", name)
+			os.Exit(4)
+		}
+		gens = append(gens, gen{name, files, g})
 	}
+	failed := 0
+	for _, g := range gens {
+		func() {
+			defer func() {
+				if p := recover(); p != nil {
+					gf, ok := p.(genFailure)
+					if !ok {
+						gf = genFailure{fmt.Sprintf("internal error: %v", p)}
+					}
+					failed++
+					fmt.Fprintf(os.Stderr, "gen: %s (%s): %s\n", g.name, strings.Join(g.files, ", "), gf.msg)
+					for _, f := range g.files {
+						poison := "(* GENERATION FAILED: " + strings.ReplaceAll(gf.msg, "*)", "* )") + " *)\nThis file does not compile on purpose.\n"
+						_ = os.WriteFile(filepath.Join(outdir, f), []byte(poison), 0o644)
+						for _, ext := range []string{"o", "os", "ok"} {
+							_ = os.Remove(filepath.Join(outdir, f+ext))
+						}
+					}
+				}
+			}()
+			g.run(root, outdir)
+		}()
+	}
+	if failed > 0 {
+		os.Exit(3)
+	}
+}
+
+// which files each self-registered generator writes
+var genOutputs = map[string][]string{
+	"genConc": {"ConcGen.v"}, "genPerioConc": {"PerioConcGen.v"}, "genFlowDesc": {"FlowDescGen.v"}, "genPerio": {"PerioGen.v"},
+	"genRules": {"RulesGen.v"}, "genTimers": {"TimerGen.v"}, "genTxKey": {"TxKeyGen.v"}, "genUrrSeq": {"UrrSeqGen.v"},
+	"genUsageDec": {"UsageDecGen.v"},
 }
 
 var extraGenerators []func(root, outdir string)
